@@ -270,9 +270,9 @@ func libModSet(vc *VC, callee *ssa.Function, c *ssa.CallCommon) (map[string]bool
 			}
 		}
 		return set, true
-	case strings.HasPrefix(k, "binary.bigEndian.Put"), strings.HasPrefix(k, "binary.littleEndian.Put"):
+	case strings.HasPrefix(k, "binary.(bigEndian).Put"), strings.HasPrefix(k, "binary.(littleEndian).Put"):
 		return map[string]bool{"E_uint8": true}, true
-	case strings.HasPrefix(k, "binary.bigEndian."), strings.HasPrefix(k, "binary.littleEndian."):
+	case strings.HasPrefix(k, "binary.(bigEndian)."), strings.HasPrefix(k, "binary.(littleEndian)."):
 		return map[string]bool{}, true
 	case k == "errors.New", k == "fmt.Errorf", k == "fmt.Sprintf", k == "errors.Is", k == "time.Now", k == "time.Since":
 		return map[string]bool{}, true
@@ -285,8 +285,8 @@ func (fr *Frame) libModel(callee *ssa.Function, args []Val, rt types.Type, pos t
 	k := funcKey(callee)
 	one := func(t string) (Val, bool) { return Val{Typ: rt, L: []string{t}}, true }
 	switch k {
-	case "binary.bigEndian.Uint16", "binary.bigEndian.Uint32", "binary.bigEndian.Uint64",
-		"binary.littleEndian.Uint16", "binary.littleEndian.Uint32", "binary.littleEndian.Uint64":
+	case "binary.(bigEndian).Uint16", "binary.(bigEndian).Uint32", "binary.(bigEndian).Uint64",
+		"binary.(littleEndian).Uint16", "binary.(littleEndian).Uint32", "binary.(littleEndian).Uint64":
 		n := map[string]int{"16": 2, "32": 4, "64": 8}[k[len(k)-2:]]
 		big := strings.Contains(k, "bigEndian")
 		b := args[1]
@@ -308,8 +308,8 @@ func (fr *Frame) libModel(callee *ssa.Function, args []Val, rt types.Type, pos t
 			vc.assume(fr.curR, "(and (>= "+e+" 0) (<= "+e+" 255))")
 		}
 		return one(r)
-	case "binary.bigEndian.PutUint16", "binary.bigEndian.PutUint32", "binary.bigEndian.PutUint64",
-		"binary.littleEndian.PutUint16", "binary.littleEndian.PutUint32", "binary.littleEndian.PutUint64":
+	case "binary.(bigEndian).PutUint16", "binary.(bigEndian).PutUint32", "binary.(bigEndian).PutUint64",
+		"binary.(littleEndian).PutUint16", "binary.(littleEndian).PutUint32", "binary.(littleEndian).PutUint64":
 		n := map[string]int{"16": 2, "32": 4, "64": 8}[k[len(k)-2:]]
 		big := strings.Contains(k, "bigEndian")
 		b, v := args[1], args[2]
